@@ -180,6 +180,7 @@ def _analyse(tier, seed):
             out = gen.run_worker(reqs, tag="pb", feat=feat)
             res = {r["_k"]: out.get(r["id"], {"ok": False, "err": "harness: no response", "tool_error": True}) for r in reqs}
             json.dump(res, open(rp, "w"))
+            c.prune_cache(f"pbresults-{tier}-", keep=6)
         return res
 
     gen.build_feature_worker()
